@@ -1506,6 +1506,10 @@ func (sh *Shell) dispatch(name string, argv []Str) {
 			sh.callFunc(f, argv[1:])
 			return
 		}
+		if inList(name, unmodelledBuiltins) {
+			// a shell builtin whose effect the model does not know must not be mistaken for an external program
+			unsup("builtin " + name + " is not modelled")
+		}
 		// external command
 		call := ExtCall{Argv: argv, InSub: sh.inSub > 0}
 		sh.Ext = append(sh.Ext, call)
@@ -1558,7 +1562,7 @@ func (sh *Shell) runPipeline(c *Cmd) {
 		if !ok {
 			unsup("symbolic command name")
 		}
-		if _, isFn := sh.funcs[name]; isFn || inList(name, []string{"echo", "cat", "eval", "read"}) {
+		if _, isFn := sh.funcs[name]; isFn || inList(name, []string{"echo", "cat", "eval", "read"}) || inList(name, unmodelledBuiltins) {
 			unsup("builtin or function in pipeline")
 		}
 		sh.Ext = append(sh.Ext, ExtCall{Argv: argv, Stdin: input, InSub: sh.inSub > 0})
@@ -1588,3 +1592,8 @@ func (sh *Shell) SortedFiles() []string {
 }
 
 var _ = fmt.Sprintf
+
+// unmodelledBuiltins are bash builtins that change the shell's state or mode and that ShSem does not interpret.
+var unmodelledBuiltins = []string{"set", "shopt", "trap", "export", "declare", "typeset", "readonly", "unset", "shift", "exec", "ulimit", "umask",
+	"alias", "unalias", "source", ".", "enable", "builtin", "command", "let", "getopts", "hash", "wait", "kill", "cd", "pushd", "popd", "printf",
+	"mapfile", "readarray", "exit", "return", "break", "continue", "test", "[", "[[", "true", "false", ":", "type", "times", "bind", "caller", "compgen", "complete", "disown", "fc", "fg", "bg", "jobs", "history", "logout", "suspend", "help", "dirs", "coproc", "select", "time", "function", "until", "while"}
